@@ -167,5 +167,6 @@ func checkC38(w *World, r *Run) {
 			}
 		}
 	}
+	checkC38Directives(w, r)
 	r.NotCovered("that each SDK field has the same meaning as the option it is filled from; error-kind translation for every SDK error; listing pagination behaviour; everything the remote endpoint does")
 }
